@@ -409,6 +409,26 @@ pub fn c19(h: &mut H) {
             }
             let rs: Vec<&(String, Integer)> = lv.iter().filter(|(lp, v)| resp(lp) && *v > 0).collect();
             let big: Vec<&(String, Integer)> = secrets.iter().filter(|(_, x)| x.clone().abs() >= two64()).collect();
+            // one blinding shared by TWO secrets under one challenge: (s - s') / c is the difference of the secrets
+            for a in 0..rs.len() {
+                for b2 in (a + 1)..rs.len() {
+                    let d = Integer::from(&rs[a].1 - &rs[b2].1);
+                    if d == 0 { continue; }
+                    for (cn, c) in &cs {
+                        let q = Integer::from(&d / c);
+                        for i in 0..big.len() {
+                            for j in (i + 1)..big.len() {
+                                let diff = Integer::from(&big[i].1 - &big[j].1);
+                                if diff.clone().abs() < two64() { continue; }
+                                let qn = Integer::from(-&q);
+                                let near = |u: &Integer| Integer::from(u - &diff).abs() < two64();
+                                h.expect(!near(&q) && !near(&qn), "C19.response_difference",
+                                    &format!("{}: ({} - {}) / {} is within 2^64 of {} - {}: the two secrets share one blinding", what, rs[a].0, rs[b2].0, cn, big[i].0, big[j].0), &[id]);
+                            }
+                        }
+                    }
+                }
+            }
             for a in 0..rs.len() {
                 for b2 in (a + 1)..rs.len() {
                     let d = Integer::from(&rs[a].1 - &rs[b2].1);
